@@ -25,6 +25,8 @@ pub struct FrameStream<S, B> {
     // Already read data from the stream
     decoder: FrameDecoder,
     remaining_data: usize,
+    // Code of the reset with which the peer terminated the stream, once it has been seen
+    terminated: Option<u64>,
 }
 
 impl<S, B> FrameStream<S, B> {
@@ -33,6 +35,7 @@ impl<S, B> FrameStream<S, B> {
             stream,
             decoder: FrameDecoder::default(),
             remaining_data: 0,
+            terminated: None,
         }
     }
 
@@ -153,11 +156,23 @@ where
     }
 
     fn try_recv(&mut self, cx: &mut Context<'_>) -> Poll<Result<bool, FrameStreamError>> {
+        // A stream the peer has reset stays reset: a transport may answer later polls with
+        // `None` ("no more data will be received"), which must not be taken for a clean end.
+        if let Some(error_code) = self.terminated {
+            return Poll::Ready(Err(FrameStreamError::Quic(
+                StreamErrorIncoming::StreamTerminated { error_code },
+            )));
+        }
         if self.stream.is_eos() {
             return Poll::Ready(Ok(true));
         }
         match self.stream.poll_read(cx) {
-            Poll::Ready(Err(e)) => Poll::Ready(Err(FrameStreamError::Quic(e))),
+            Poll::Ready(Err(e)) => {
+                if let StreamErrorIncoming::StreamTerminated { error_code } = &e {
+                    self.terminated = Some(*error_code);
+                }
+                Poll::Ready(Err(FrameStreamError::Quic(e)))
+            }
             Poll::Pending => Poll::Pending,
             Poll::Ready(Ok(eos)) => Poll::Ready(Ok(eos)),
         }
@@ -206,11 +221,13 @@ where
                 stream: send,
                 decoder: FrameDecoder::default(),
                 remaining_data: 0,
+                terminated: None,
             },
             FrameStream {
                 stream: recv,
                 decoder: self.decoder,
                 remaining_data: self.remaining_data,
+                terminated: self.terminated,
             },
         )
     }
